@@ -160,7 +160,13 @@ func runsFor(prop, tier string) []run {
 		d3 := del
 		d3.Punch = false
 		d3.InitOps = []string{"W:0:8", "SnapA", "W:0:16", "SnapU", "W:8:8", "SnapA", "Mark:1", "W:0:8", "SnapA", "Checkpoint:3"}
+		// a deletion is three calls (mark, coalesce, unlink) with the replica serving in between: other operations land
+		// between the steps
+		steps := ea.Cfg{Blocks: 2, Punch: true, Alphabet: []string{"Fold", "RmF", "Mark", "W", "Reload", "ReloadULM", "Revert", "ReopenP", "SnapA"},
+			WShapes: [][2]int{{0, 8}, {8, 8}}, RShapes: [][2]int{{0, 16}}, Oracles: []string{"read", "snapdirect", "snaprevert", "chain"}, MaxSnaps: 5, MaxWrites: 6,
+			InitOps: []string{"W:0:16", "SnapA", "W:0:8", "SnapA", "W:8:8", "SnapA"}}
 		return []run{
+			{"deletion-steps-interleaved", steps, pick(4, 6), minutes(pickf(0.7, 6))},
 			{"candidate-filter-all-chains", cand, pick(7, 9), minutes(pickf(1.2, 8))},
 			{"deletions-from-aaa", d1, pick(4, 5), minutes(pickf(1, 6))},
 			{"deletions-from-uaau", d2, pick(4, 5), minutes(pickf(1, 6))},
